@@ -22,7 +22,7 @@ ASSUMPTIONS = [
     "generated bodies bound their own recursion; interpreter faults (RecursionError) are C18's matter",
 ]
 REPORT_COUNTERS = ["programs", "calls", "calls_failed", "calls_nested", "calls_repeat_types",
-                   "first_seen_via_nested", "after_failing_call", "dependent_programs"]
+                   "first_seen_via_nested", "after_failing_call", "dependent_programs", "mode_variant", "mode_mixin", "mode_method"]
 
 
 def plan(tier):
@@ -48,6 +48,18 @@ def gen_case(rng, params, idx):
         hist.append(c)
     spec["history"] = hist
     spec["flavour"] = flavour
+    # the function is sometimes a variant, a mixin combination or a method with self (caches behind __get__)
+    mode = rng.choice(["plain", "plain", "plain", "variant", "mixin", "method"])
+    if mode != "plain" and not any(m["kind"] == "fnext" for m in spec["methods"]):
+        seen, ms = set(), []
+        for m in spec["methods"]:        # identical signatures on different nodes replace instead of stacking
+            k = (tuple(T.tname(p["t"]) for p in m["pos"]), tuple(sorted((q["n"], T.tname(q["t"])) for q in m.get("kw", []))), m["prio"])
+            if k not in seen:
+                seen.add(k)
+                ms.append(m)
+        spec["methods"] = ms
+        spec["mode"] = mode
+        spec["split"] = rng.randint(1, max(1, len(ms) - 1))
     return spec
 
 
@@ -64,6 +76,7 @@ def check_case(spec, res):
         res.count("unbuildable")
         return
     res.count("programs")
+    res.count("mode_" + spec.get("mode", "plain"))
     if spec["flavour"] == "dep":
         res.count("dependent_programs")
     res.sample({k: spec[k] for k in ("hier", "methods", "npos", "flavour")} | {"history": spec["history"][:4]}, spec["flavour"])
